@@ -17,8 +17,9 @@ pub fn line_of(rng: &mut Rng, class: &str) -> Vec<u8> {
         "lead-ws" => pick(rng, &[b"  indented", b" x", b"    four"]),
         "trail-ws" => pick(rng, &[b"trailing ", b"x  ", b"two words   "]),
         "bracket" => pick(rng, &[b"[1]", b"[0]", b"[255]", b"[42]", b"[1] ", b" [1]", b"[x]"]),
-        "dollar" => pick(rng, &[b"$ x", b"$ echo hi", b"$", b"$ ", b"$x"]),
-        "gt" => pick(rng, &[b"> x", b"> ", b">", b">x"]),
+        // command look-alikes, also together with text that needs escaping (both mechanisms at once)
+        "dollar" => pick(rng, &[b"$ x", b"$ echo hi", b"$", b"$ ", b"$x", b"$ grep '\\d+' \x1b[1mlog\x1b[0m", b"$ a\tb", b"$ c:\\dir\x07", b"$ \xff"]),
+        "gt" => pick(rng, &[b"> x", b"> ", b">", b">x", b"> \x1b[32mready\x1b[0m", b"> q\tz", b"> back\\slash\x01", b"> \xfe\xff"]),
         "suffix" => pick(
             rng,
             &[
